@@ -58,6 +58,12 @@ SCENARIOS = {
     'prefix_names': dict(mods=('m1', 'm1b'), scripts={'c1': [('activate', 'm1b:_p1'), ('activate', 'm1'), ('deactivate', 'm1')],
                                                      'c2': [('activate', 'm1b'), ('activate', 'm1:_p1'), ('deactivate', 'm1b')]},
                          updaters=[[('m1b', 'p1'), ('m1', 'p1'), ('m1b', 'p1'), ('m1', 'p1')]]),
+    # a connection that is the only subscriber of a scope disconnects while another one activates the same scope
+    'disconnect_same_scope': dict(scripts={'c1': [('activate', P1), ('disconnect', None)], 'c2': [('activate', P1)]},
+                                  updaters=[[('m1', 'p1'), ('m1', 'p1')]]),
+    'disconnect_same_module': dict(scripts={'c1': [('activate', 'm1'), ('disconnect', None)], 'c2': [('activate', 'm1')],
+                                            'c3': [('activate', 'm2'), ('ident', None)]},
+                                   updaters=[[('m1', 'p2'), ('m2', 'p1'), ('m1', 'p2')]]),
     'two_scopes': dict(scripts={'c1': [('activate', None), ('activate', P1), ('deactivate', None)]},
                        updaters=[[('m1', 'p1'), ('m1', 'p1')]]),
 }
@@ -83,13 +89,14 @@ def _explore(args):
     from ..dispworld import run_scenario
     sc = SCENARIOS[name]
     out = []
-    if mode == 'dfs':
+    if mode in ('dfs', 'dfs1'):
         class Run:
             def __init__(self, r):
                 self.choices = r['raw_choices']
                 self.res = r
 
-        for s in ds.explore(lambda st: Run(run_scenario(sc, st, line_level)), max_preemptions=2, max_runs=nruns):
+        for s in ds.explore(lambda st: Run(run_scenario(sc, st, line_level)), max_preemptions=2 if mode == 'dfs' else 1,
+                            max_runs=nruns):
             out.append((s.res['choices'], alpha(s.res)))
     else:
         for k in range(nruns):
@@ -123,6 +130,9 @@ def run(chk):
             jobs.append((name, 'rnd', chk.seed * 31 + part, nrnd // (2 if quick else 8), False))
         if not quick:
             jobs.append((name, 'rnd', chk.seed * 17 + 5, 500, True))
+        if 'disconnect' in name or name == 'ident':
+            # disconnects are handled outside the dispatcher lock: every source line is a preemption point
+            jobs.append((name, 'dfs1', chk.seed, 400 if quick else 4000, True))
     results = pool_map(_explore, jobs, chunksize=1)
     traces, origin, seen = [], [], set()
     for name, out in results:
